@@ -19,6 +19,18 @@ func checkC17(ix *index, add addFn) {
 			regs = append(regs, reg{ix.ops[k].inv, ix.ops[k].ret, op.Handler})
 		}
 	}
+	// registrations made from inside a handler
+	begin := -1
+	for i := range ix.tr {
+		if r := &ix.tr[i]; r.Kind == "reg" {
+			if r.S == "begin" {
+				begin = i
+			} else if begin >= 0 {
+				regs = append(regs, reg{begin, i, int(r.V)})
+				begin = -1
+			}
+		}
+	}
 	q2pending := map[int]map[uint16]*Pkt{} // conn -> id -> PUBLISH
 	// engine R: a packet announced as readable whose connection was closed
 	// before the bytes went in
@@ -62,17 +74,35 @@ func checkC17(ix *index, add addFn) {
 		}
 		// acceptable handlers: the latest registration completed before the
 		// delivery; registrations in the same step are acceptable either way
+		// a connection of the hand-driven RetryClient that has been replaced by
+		// SetClient while still open: what counts for it is the handler registered
+		// before the replacement; later registrations may or may not reach it
+		replAt := -1
+		if sc.Cfg.Client == "retry" {
+			n := 0
+			for k, op := range sc.Ops {
+				if op.Kind == "setclient" && ix.ops[k].inv >= 0 {
+					n++
+					if n == r.Conn+1 && ix.ops[k].inv < i {
+						replAt = ix.ops[k].inv
+					}
+				}
+			}
+		}
 		var acceptable []int
 		latest, latestAt := -1, -1
 		for _, g := range regs {
 			sameStep := ix.tr[g.inv].T == r.T || ix.tr[g.ret].T == r.T
-			if sameStep {
+			if sameStep || (replAt >= 0 && g.ret > replAt && g.ret < i) {
 				acceptable = append(acceptable, g.h)
 				continue
 			}
 			if g.ret < i && g.ret > latestAt {
 				latest, latestAt = g.h, g.ret
 			}
+		}
+		if replAt >= 0 && latest < 0 {
+			acceptable = append(acceptable, 0) // nothing was registered before the replacement
 		}
 		if latest < 0 && len(acceptable) == 0 {
 			continue // no handler registered yet: nothing is owed
